@@ -276,8 +276,8 @@ func (h held) changed() bool {
 
 type seqStats struct {
 	dupAdd, delAbsent, delPresent, delLast, delNonTail, addAfterDelete int
-	maxLocs                                                           int
-	mixedDC                                                           bool
+	maxLocs                                                            int
+	mixedDC                                                            bool
 }
 
 // runSequence applies ops to a fresh client, checking all lookups after every
